@@ -30,6 +30,9 @@ pub fn domain() -> Box<dyn Domain> {
 // ---------------------------------------------------------------------------------------------
 // the callback
 
+/// read size that stands for "the callback fails at this invocation"
+const FAIL: usize = usize::MAX;
+
 struct FragCb {
     data: Vec<u8>,
     pos: usize,
@@ -43,6 +46,7 @@ impl Callback for FragCb {
         self.calls += 1;
         let remaining = self.data.len() - self.pos;
         let n = match self.ds.pop_front() {
+            Some(FAIL) => return Err(()),
             Some(d) => d.min(buffer.len()).min(remaining),
             None => {
                 if remaining == 0 {
@@ -351,6 +355,16 @@ fn clone_ferr(e: &format::Error) -> format::Error {
 }
 
 fn parse_frag(total: usize, s: &str) -> Option<Vec<usize>> {
+    // `x<k>/<frag>`: fail at invocation k; before that the sizes of <frag>, then as much as fits
+    if let Some(rest) = s.strip_prefix('x') {
+        let (k, f) = rest.split_once('/')?;
+        let k: usize = k.parse().ok()?;
+        let mut ds = parse_frag(total, f)?;
+        ds.resize(k.max(ds.len()), total);
+        ds.truncate(k);
+        ds.push(FAIL);
+        return Some(ds);
+    }
     if s == "w" {
         return Some(vec![]);
     }
@@ -787,7 +801,18 @@ impl Runner for R {
                 let r = if *op == "file" { read_all_file(&total, &ds, &ask) } else { read_all_q(&total, &ds, &ask) };
                 // oracle: independent of the fragmentation; no panic; tick structure; sums
                 let whole = if ds.is_empty() && *op != "file" { Ok(None) } else { read_all(&total, &[]).map(Some) };
+                let failing = ds.contains(&FAIL);
                 match (&r, &whole) {
+                    (Ok(a), Ok(Some(b))) if failing => {
+                        // a failing callback: its error after a prefix of the items, or no difference
+                        let prefix = a.evs.len() <= b.evs.len() && a.evs[..] == b.evs[..a.evs.len()];
+                        if !((a.fin == "err:Cb" && prefix) || a.line == b.line) {
+                            o.fail("C17/callback-error-not-prefix", format!("frag={} gives `{}`, unfragmented `{}`", frag, clip(&a.line), clip(&b.line)));
+                        }
+                        if a.header_version.is_some() {
+                            oracle_structure(&stream, has_ex_of(ver), a, o, &format!("(frag={})", frag));
+                        }
+                    }
                     (Ok(a), Ok(b)) => {
                         if b.as_ref().map(|b| a.line != b.line).unwrap_or(false) {
                             let b = b.as_ref().unwrap();
@@ -1593,6 +1618,37 @@ impl Domain for D {
                 emit(w, "hash", 2, &hdr2, &s.0, &frag_random(&mut rng, target + 100));
             }
         }
+        // the header's framing: cut at every position (no stream behind it), wrong magic, missing
+        // NUL, unsupported versions; each under several fragmentations
+        {
+            let d11: Vec<u8> = vec![0x42, 2, 0, 0, 0x42, 3, 0, 0, 0x41, 0, 2, 1, 1, 0x40];
+            let step = if thorough { 1 } else { 7 };
+            for hdr in [&hdr2, &hdr1] {
+                let ver = if hdr.len() == hdr1.len() && hdr[..] == hdr1[..] { 1 } else { 2 };
+                let mut cut = 0;
+                while cut < hdr.len() {
+                    for f in ["w", "b", "l:5,0,11,3"] {
+                        emit(w, "hash", ver, &hdr[..cut], &[], f);
+                    }
+                    cut += if cut < 20 || cut + 3 >= hdr.len() { 1 } else { step };
+                }
+                for k in [0usize, 7, 15] {
+                    let mut bad = hdr.to_vec();
+                    bad[k] ^= 0x20;
+                    for f in ["w", "b", "s:16", "s:15"] {
+                        emit(w, "run", ver, &bad, &d11, f);
+                    }
+                    emit(w, "all2", ver, &bad[..24], &[], "");
+                }
+                emit(w, "all2", ver, hdr, &d11, "");
+            }
+            for v in [0u32, 3, 7] {
+                let h = header(v, 0);
+                for f in ["w", "b", "l:16,1,1,400"] {
+                    emit(w, "run", v, &h, &d11, f);
+                }
+            }
+        }
         // exhaustive: every stream of 0, 1 (and, thorough, 2) bytes, both format versions
         for n in 0..=1 {
             writeln!(w, "sweep 2 {} {} -", to_hex(&hdr2), n).unwrap();
@@ -1630,6 +1686,13 @@ impl Domain for D {
                 emit(w, "file", ver, &hdr, &s, &f);
             }
             emit(w, if total > 3000 { "hash" } else { "run" }, ver, &hdr, &s, "b");
+            // a callback that fails at some invocation
+            for _ in 0..2 {
+                let f = frag_random(&mut rng, total);
+                let calls = f.matches(',').count() + 2;
+                let k = rng.below(calls as u64 + 1);
+                emit(w, if total > 3000 { "hash" } else { "run" }, ver, &hdr, &s, &format!("x{}/{}", k, f));
+            }
             if total <= (if thorough { 1500 } else { 800 }) {
                 emit(w, "all2", ver, &hdr, &s, "");
             } else {
